@@ -264,11 +264,9 @@ func (fs LocalFileSystem) Copy(ctx context.Context, src, dst string, options *Co
 	// TODO: "Note that an infinite-depth COPY of /A/ into /A/B/ could lead to
 	// infinite recursion if not handled correctly"
 
-	srcInfo, err := os.Stat(srcPath)
-	if err != nil {
+	if _, err := os.Stat(srcPath); err != nil {
 		return false, errFromOS(err)
 	}
-	srcPerm := srcInfo.Mode() & os.ModePerm
 
 	if _, err := os.Stat(dstPath); err != nil {
 		if !os.IsNotExist(err) {
@@ -289,12 +287,19 @@ func (fs LocalFileSystem) Copy(ctx context.Context, src, dst string, options *Co
 			return err
 		}
 
+		rel, err := filepath.Rel(srcPath, p)
+		if err != nil {
+			return err
+		}
+		target := filepath.Join(dstPath, rel)
+		perm := fi.Mode() & os.ModePerm
+
 		if fi.IsDir() {
-			if err := os.Mkdir(dstPath, srcPerm); err != nil {
+			if err := os.Mkdir(target, perm); err != nil {
 				return errFromOS(err)
 			}
 		} else {
-			if err := copyRegularFile(srcPath, dstPath, srcPerm); err != nil {
+			if err := copyRegularFile(p, target, perm); err != nil {
 				return err
 			}
 		}
